@@ -75,7 +75,18 @@ pub fn run_case(_ctx: &Ctx, case: &Value, tag: usize, rep: &mut Report, mb: &mut
     let g = Gram::from_json(&case["grammar"]);
     let texts: Vec<Vec<u8>> = case["texts"].as_array().map(|a| a.iter().map(|t| vocab::unhex(t.as_str().unwrap())).collect()).unwrap_or_default();
     let steps = case["steps"].as_u64().unwrap() as usize;
-    let (words, eos) = vocab::synth_words(&mut rng, &texts, 50, None);
+    let (mut words, mut eos) = vocab::synth_words(&mut rng, &texts, 50, None);
+    // tokens that span the end of a prompt, the grammar's forced start and one more byte: prompt healing then chops
+    // back into the prompt (texts[0] is a complete example, so it begins with the forced bytes)
+    if let Some(first) = texts.first() {
+        for tail in [&b" "[..], &b": "[..], &b"s "[..], &b"x "[..]] {
+            for k in 1..=4usize.min(first.len()) {
+                let mut wd = tail.to_vec();
+                wd.extend_from_slice(&first[..k]);
+                if !wd.contains(&0xff) && !words.contains(&wd) { words.insert(256, wd); eos += 1; }
+            }
+        }
+    }
     let sb = vocab::single_byte_words();
     let sb_eos = sb.len() as u32 - 1;
     let (Ok(wc), Ok(wb)) = (World::new(words, eos, true, None), World::new(sb, sb_eos, false, None)) else { rep.skip("world"); return; };
